@@ -73,6 +73,7 @@ func (b *backoff) next(attempt int) time.Duration {
 
 	delay := time.Duration(durf)
 
+	vpoint(b, "backoff.next", "attempt", attempt, "d", int64(delay), "min", int64(b.minDelay), "max", int64(b.maxDelay))
 	if delay > b.maxDelay {
 		return b.maxDelay
 	}
